@@ -44,6 +44,10 @@ def configs(tier, seed):
                         if tier == "quick" and (hash_small(bi, tp, dens, ni) % 4) != TRANS.index(tr):
                             continue
                         out.append({"basis": BASES.index(b), "types": list(tp), "dens": dens, "nuc": ni, "tr": tr})
+    # the upper end of the point-count range (1-30 points): one family with 27 and 30 points
+    for npts in (27, 30, 1):
+        for tr in TRANS:
+            out.append({"basis": 2, "types": ["spherical", "cartesian"], "dens": "indef", "nuc": 2, "tr": tr, "npts": npts})
     return out
 
 
@@ -63,6 +67,8 @@ def build(cfg):
     nuc[0] = np.array(cs[0])
     pts = [hvec("esp-pt0", 3, -2.0, 2.0), hvec("esp-pt1", 3, -0.6, 0.6), list(nuc[-1]),
            list((nuc[0] + np.array(cs[-1])) / 2 + np.array([0.0, 0.21, 0.0]))]
+    if cfg.get("npts", 4) > 4:
+        pts += [hvec("esp-more%d" % i, 3, -2.5, 2.5) for i in range(cfg["npts"] - 4)]
     return shells, nuc, Z, np.array(pts)
 
 
@@ -72,6 +78,8 @@ def evaluate(cfg):
 
     o = Obs(cfg)
     shells, nuc, Z, pts = build(cfg)
+    if cfg.get("npts") == 1:
+        pts = pts[:1]
     g = [gshell(s) for s in shells]
     n = nbasis(shells)
     V = coulomb.coulomb_matrix(shells, shells, pts)  # (n, n, P)
@@ -105,6 +113,8 @@ def evaluate(cfg):
         if d > 0:
             thrs += [0.99 * d, 1.01 * d]
     thrs += [float(dist.max() * 1.5)]
+    if len(pts) > 8:
+        thrs = thrs[::max(1, len(thrs) // 12)] + thrs[-1:]  # many points: an evenly spaced dozen of the bracketing thresholds
     thrs = [0.0, 0] + thrs  # float and int zero (a point on a nucleus then gives an infinite potential)
     o.notes["max_thresholds"] = len(thrs)
     for thr in thrs:
